@@ -52,6 +52,13 @@ type clientStream struct {
 
 	teardown func(bool)
 
+	// sendMu orders what this stream writes to the transport: a message or the
+	// half-close that is already inside the transport's Write goes out before
+	// the RST_STREAM of a cancelled stream, and nothing is written after it.
+	// Lock order: cs.protected (if held) before sendMu; nothing else is taken
+	// while sendMu is held.
+	sendMu sync.Mutex
+
 	rCh chan *goatorepo.Body
 }
 
@@ -100,7 +107,9 @@ func NewStream(
 			writeCtx, cancelWrite := context.WithDeadline(context.Background(),
 				time.Now().Add(30*time.Second))
 			defer cancelWrite()
+			cs.sendMu.Lock()
 			err := rw.Write(writeCtx, &rpc)
+			cs.sendMu.Unlock()
 			if err != nil {
 				log.Err(err).Str("method", method).
 					Msg("Failed to send RST_STREAM message on teardown")
@@ -182,6 +191,12 @@ func (cs *clientStream) CloseSend() error {
 		})
 	}
 
+	cs.sendMu.Lock()
+	defer cs.sendMu.Unlock()
+	if err := cs.ctx.Err(); err != nil {
+		// cancelled while waiting for the reset to be written: nothing may follow it
+		return err
+	}
 	return cs.rw.Write(cs.ctx, &tr)
 }
 
@@ -234,7 +249,12 @@ func (cs *clientStream) SendMsg(m interface{}) error {
 			Data: body.Materialize(),
 		},
 	}
-	err = cs.rw.Write(cs.ctx, &rpc)
+	cs.sendMu.Lock()
+	if err = cs.ctx.Err(); err == nil {
+		// (re-checked under sendMu: once a cancelled stream's reset is out, nothing follows it)
+		err = cs.rw.Write(cs.ctx, &rpc)
+	}
+	cs.sendMu.Unlock()
 	if err != nil {
 		cs.teardown(false)
 		return err
